@@ -53,10 +53,13 @@ def Heap.childrenOf (h : Heap) (i : Id) : List Id :=
 
 /-! ## Reachability: the relation and the executable closure -/
 
-/-- The inductive reachability relation (only allocated ids count). -/
-inductive Reachable (h : Heap) : Id → Prop where
-  | root {i} : i ∈ h.rootIds → i < h.objs.size → Reachable h i
-  | step {i j} : Reachable h i → j ∈ h.childrenOf i → j < h.objs.size → Reachable h j
+/-- The inductive reachability relation from a list of root ids (only allocated ids count). -/
+inductive ReachableFrom (h : Heap) (roots : List Id) : Id → Prop where
+  | root {i} : i ∈ roots → i < h.objs.size → ReachableFrom h roots i
+  | step {i j} : ReachableFrom h roots i → j ∈ h.childrenOf i → j < h.objs.size → ReachableFrom h roots j
+
+/-- Reachable from the root table of the heap. -/
+abbrev Reachable (h : Heap) (i : Id) : Prop := ReachableFrom h h.rootIds i
 
 /-- Drop the already visited (or out-of-range) prefix of the worklist. -/
 def skipVisited (v : Array Bool) : List Id → List Id
